@@ -12,6 +12,9 @@ import (
 type providerSet struct {
 	providers []peer.ID
 	set       map[peer.ID]time.Time
+	// incomplete is set when the datastore scan that built the set reported an
+	// error for some entry: what was read is served, but must not be cached.
+	incomplete bool
 }
 
 func newProviderSet() *providerSet {
